@@ -9,7 +9,7 @@ Three parts:
     parsing, networks annotation through the real resolveNetworks, NetworkPolicy objects on the real PolicyManager,
     the ConfigMap decoder - DIFFERENTIAL TESTING of the result class only (answer/error/panic/timeout + a follow-up
     call on the same instance that needs every lock)."""
-import json, re
+import base64, json, re
 from urllib.parse import quote
 import vf, locksgen
 from vf import cN, cZ, cbool, cstr, clist, copt, cpair
@@ -564,9 +564,59 @@ def model_expr(c, o):
                 return None
             return "(chk_netanno cur_sflags (AJson %s) %s)" % (cjson(t), cls)
         return "(chk_netanno cur_sflags (AText %s) %s)" % (cstr(s), cls)
-    if c["op"] == "page":
-        return None    # Model/Page.v is tied to the code by C11's correspondence
-    return None
+    if c["op"] == "cnireq":
+        body = c["body"]
+        if not ascii_plain(body):
+            return None
+        try:
+            b = json.loads(body)
+        except ValueError:
+            return "(chk_class CErr %s)" % cls
+        if not isinstance(b, dict) or has_dup_or_float(b) or any(k.lower() in ("env", "config") and k not in ("env", "config") for k in b):
+            return None
+        env, cfg = b.get("env"), b.get("config")
+        if env is not None and (not isinstance(env, dict) or not all(isinstance(v, str) and ascii_plain(k + v) for k, v in env.items())):
+            return None
+        if cfg is not None:
+            if not isinstance(cfg, str):
+                return None
+            try:
+                base64.b64decode(cfg, validate=True)
+            except Exception:
+                return "(chk_class CErr %s)" % cls
+        e = "None" if env is None else "(Some %s)" % clist(cpair(cstr(k), cstr(v)) for k, v in env.items())
+        return "(chk_cnireq %s %s)" % (e, cls)
+    if c["op"] == "plugin" and c.get("fn") == "preempt":
+        a = json.loads(c["args"])
+        def vic(v):
+            if v is None:
+                return "None"
+            pods = v.get("Pods") or []
+            return "(Some %s)" % clist("None" if p is None else "(Some 1)" for p in pods)
+        vs = a.get("NodeNameToVictims") or {}
+        ms = a.get("NodeNameToMetaVictims") or {}
+        return "(chk_preempt cur_sflags {| pa_pod := %s; pa_victims := %s; pa_meta := %s |} %s)" % (
+            "None" if a.get("Pod") is None else "(Some false)",
+            clist(cpair(cstr(k), vic(v)) for k, v in vs.items()), clist(cstr(k) for k in ms), cls)
+    if c["op"] == "policy":
+        spec = json.loads(c["np"])["spec"]
+        def peers(rule, key):
+            out = []
+            for p in rule.get(key) or []:
+                if "ipBlock" in p:
+                    out.append("PIpBlock")
+                elif "podSelector" in p and "namespaceSelector" in p:
+                    out.append("PPodNs")
+                elif "podSelector" in p:
+                    out.append("PPod")
+                else:
+                    out.append("PNs")
+            return clist(out)
+        types = clist("TIngress" if t == "Ingress" else "TEgress" for t in spec.get("policyTypes") or [])
+        return "(chk_policy cur_sflags {| np_types := %s; np_ingress := %s; np_egress := %s |} %s)" % (
+            types, clist(peers(r, "from") for r in spec.get("ingress") or []),
+            clist(peers(r, "to") for r in spec.get("egress") or []), cls)
+    return None    # page: Model/Page.v is tied to the code by C11's correspondence; the real slice expression runs in ghsurf
 
 
 def has_dup_or_float(t):
